@@ -27,6 +27,8 @@ func Faults() []Fault {
 		{Name: "indent-two-levels", Lines: rel("%p", "\t\t%b two levels deeper")},
 		{Name: "inline-and-nested", Lines: rel("%p inline", "\t%b nested too")},
 		{Name: "inline-script-and-nested", Lines: rel("%p= s0", "\t%b nested too")},
+		{Name: "inline-children-and-nested", Lines: rel("%p= @children", "\t%b nested too")},
+		{Name: "inline-render-and-nested", Lines: rel("%p= @render L0"+Args, "\t%b nested too")},
 		{Name: "under-void-tag", Lines: rel("%br", "\t%b under void")},
 		{Name: "under-self-closed", Lines: rel("%foo/", "\t%b under self closed")},
 		{Name: "under-one-line-comment", Lines: rel("/ a comment", "\t%b under comment")},
@@ -44,6 +46,18 @@ func Faults() []Fault {
 		{Name: "unterminated-attr-interpolation", Cut: true, Lines: rel("%p{a: #{s0 } t")},
 		{Name: "unterminated-object-reference", Cut: true, Lines: rel("%p[o0 t")},
 	}
+}
+
+// VoidTags: the elements the documentation lists as self-closing (nothing may be nested under them)
+var VoidTags = []string{"area", "base", "basefont", "br", "col", "embed", "frame", "hr", "img", "input", "isindex", "keygen", "link", "menuitem", "meta", "param", "source", "track", "wbr"}
+
+// VoidTagFaults: one operator per void tag
+func VoidTagFaults() []Fault {
+	var out []Fault
+	for _, t := range VoidTags {
+		out = append(out, Fault{Name: "under-void-tag-" + t, Lines: rel("%"+t, "\t%b under void")})
+	}
+	return out
 }
 
 type Injected struct {
@@ -97,7 +111,7 @@ func collectBlocks(t *Template) []blockRef {
 // maxPerFault bounds the positions per operator (0 = all).
 func InjectAll(f *File, maxPerFault int) []Injected {
 	var out []Injected
-	for _, flt := range Faults() {
+	for _, flt := range append(Faults(), VoidTagFaults()...) {
 		count := 0
 		for _, t := range f.Templates {
 			for _, b := range collectBlocks(t) {
